@@ -61,6 +61,46 @@ Example C06_nonvacuous :
   match encode id_sse_bin_SseBinary ex_frame [x01; x02] with Ok (_, b) => (8 <? lenN b) | Fail _ => false end = true.
 Proof. vm_compute. repeat split; reflexivity. Qed.
 
+(* The buffer itself.  Sem.v's buffer is the list of its unread bytes and Write is list append.  bytes.Buffer as the Go
+   source has it (Model/Buffer.v: read offset, length, capacity, reslice / slide down / reallocate, over a heap of arrays
+   that are never freed) does exactly that to its unread bytes - from every starting state (however much has been
+   consumed, whatever the spare capacity, whatever stale bytes lie beyond the end, whatever capacity the runtime picks
+   for a new array) and for every history of Write/Grow/Next/Read/Reset/Bytes.  The model is tied to the real
+   bytes.Buffer by the "buf" correspondence slice. *)
+From FP.Model Require Buffer.
+From FP.Theory Require BufferRefine.
+Theorem C06_buffer_is_its_unread_bytes : forall os s s',
+  BufferRefine.WF (Buffer.st_h s) (Buffer.st_b s) -> forallb (fun o => negb (BufferRefine.pokes o)) os = true ->
+  Buffer.bsteps s os = Some s' ->
+  BufferRefine.WF (Buffer.st_h s') (Buffer.st_b s') /\
+  Buffer.contents (Buffer.st_h s') (Buffer.st_b s') =
+    fold_left Buffer.astep os (Buffer.contents (Buffer.st_h s) (Buffer.st_b s)).
+Proof. exact BufferRefine.buffer_refines_list. Qed.
+
+(* a Write fails only if the runtime hands out too small an array *)
+Theorem C06_write_appends : forall nc h b bs,
+  BufferRefine.WF h b -> (Buffer.unread b + List.length bs <= nc)%nat ->
+  exists h' b', Buffer.write nc h b bs = Some (h', b') /\ BufferRefine.WF h' b' /\
+                Buffer.contents h' b' = Buffer.contents h b ++ bs.
+Proof.
+  intros nc h b bs W Hnc. destruct (Buffer.write nc h b bs) as [[h' b']|] eqn:E.
+  - exists h', b'. split; [reflexivity | exact (BufferRefine.write_refines nc h b bs h' b' W E)].
+  - exfalso. exact (BufferRefine.write_total nc h b bs W Hnc E).
+Qed.
+
+(* non-vacuity: a partly consumed buffer with stale bytes beyond its end is a well-formed state, and a history that
+   consumes, slides and reallocates runs *)
+Example C06_buffer_nonvacuous :
+  let s := Buffer.new_buffer (repeat x55 20 ++ [x01; x02; x03; x04] ++ repeat xee 8) 24 in
+  BufferRefine.WF (Buffer.st_h s) (Buffer.st_b s) /\
+  match Buffer.bsteps s [Buffer.BRead 20; Buffer.BWrite 64 (repeat x07 12); Buffer.BWrite 64 (repeat x08 40)] with
+  | Some s' => Buffer.contents (Buffer.st_h s') (Buffer.st_b s') = [x01; x02; x03; x04] ++ repeat x07 12 ++ repeat x08 40
+  | None => False
+  end.
+Proof. split; [apply BufferRefine.new_buffer_wf; cbn; lia | vm_compute; reflexivity]. Qed.
+
+Print Assumptions C06_buffer_is_its_unread_bytes.
+Print Assumptions C06_write_appends.
 Print Assumptions C06_append_only_context_free.
 Print Assumptions C06_failure_context_free.
 Print Assumptions C06_sequences_concatenate.
